@@ -15,9 +15,10 @@ if os.path.isdir(td):
 props = [json.loads(l) for l in open(os.path.join(ROOT, "properties.jsonl"))]
 checks = []
 na = []
+ready = set(json.load(open(os.path.join(ROOT, "vc", "claimed.json")))["claimed"])   # the lead's explicit list
 for p in props:
     pid = p["id"]
-    if pid in cfg["properties"]:
+    if pid in cfg["properties"] and pid in ready:
         t = texts["claimed"][pid]
         checks.append({
             "property_id": pid,
@@ -31,7 +32,7 @@ for p in props:
             "technique": t["technique"],
         })
     else:
-        na.append({"property_id": pid, "reason": texts["not_applicable"][pid]})
+        na.append({"property_id": pid, "reason": texts["not_applicable"].get(pid, "not built yet in this session (work in progress; see DESIGN.md section 9)")})
 m = {
     "version": 1,
     "setup_cmd": "python3 tools/selfcheck.py",
